@@ -3,6 +3,7 @@ package props
 import (
 	"context"
 	"fmt"
+	"io"
 	"os"
 	"regexp"
 	"runtime"
@@ -410,4 +411,118 @@ func TestC06_Random(t *testing.T) {
 			return c
 		},
 		Check: c06Check})
+}
+
+// ---- long rings entered at several points at the same time ----
+
+type c06Ring struct {
+	Ring     int   // files c0 -> c1 -> ... -> c(Ring-1) -> c0
+	Entrants []int // entrant k imports ring member Entrants[k]; c0 and all entrants are requested
+	Par      int
+	// Gate: when the entrants' sources are handed out - "none" (at once), "c0-closed" (once the compiler has closed
+	// the source of c0, i.e. once the ring has been found to be cyclic), "c0-opened" (once c0 has been opened)
+	Gate string
+}
+
+type c06Closer struct {
+	*strings.Reader
+	once *sync.Once
+	ch   chan struct{}
+}
+
+func (s c06Closer) Close() error { s.once.Do(func() { close(s.ch) }); return nil }
+
+func c06RingCheck(c c06Ring, r *ev.Rec) error {
+	requested := []string{"c0.proto"}
+	for k := range c.Entrants {
+		requested = append(requested, fmt.Sprintf("e%d.proto", k))
+	}
+	for pass, collect := range []bool{false, true} {
+		gate := make(chan struct{})
+		var once sync.Once
+		open := func() { once.Do(func() { close(gate) }) }
+		if c.Gate == "none" {
+			open()
+		}
+		accessor := func(path string) (io.ReadCloser, error) {
+			var i int
+			if _, err := fmt.Sscanf(path, "c%d.proto", &i); err == nil && i < c.Ring {
+				src := fmt.Sprintf("syntax = \"proto3\"; import \"c%d.proto\";", (i+1)%c.Ring)
+				if i == 0 {
+					if c.Gate == "c0-opened" {
+						open()
+					}
+					if c.Gate == "c0-closed" {
+						return c06Closer{strings.NewReader(src), &once, gate}, nil
+					}
+				}
+				return io.NopCloser(strings.NewReader(src)), nil
+			}
+			if _, err := fmt.Sscanf(path, "e%d.proto", &i); err == nil && i < len(c.Entrants) {
+				select {
+				case <-gate:
+				case <-time.After(10 * time.Second):
+				}
+				return io.NopCloser(strings.NewReader(fmt.Sprintf("syntax = \"proto3\"; import \"c%d.proto\";", c.Entrants[i]))), nil
+			}
+			return nil, fmt.Errorf("no such file: %s", path)
+		}
+		var mu sync.Mutex
+		var reported []string
+		comp := protocompile.Compiler{Resolver: &protocompile.SourceResolver{Accessor: accessor}, MaxParallelism: c.Par}
+		if collect {
+			comp.Reporter = reporter.NewReporter(func(e reporter.ErrorWithPos) error {
+				mu.Lock()
+				reported = append(reported, e.Error())
+				mu.Unlock()
+				return nil
+			}, nil)
+		}
+		var err error
+		fin, dump := withWatchdog(30*time.Second, func() {
+			_, err = comp.Compile(context.Background(), requested...)
+		})
+		if !fin {
+			return fmt.Errorf("compile (pass %d) did not return within 30s (deadlock?) for %+v\n%s", pass, c, firstLinesOf(dump, 60))
+		}
+		if err == nil {
+			return fmt.Errorf("compile (pass %d) succeeded although the requested files import a ring of %d files: %+v", pass, c.Ring, c)
+		}
+		mu.Lock()
+		msgs := append([]string{err.Error()}, reported...)
+		mu.Unlock()
+		seen := false
+		for _, m := range msgs {
+			seen = seen || strings.Contains(m, "cycle found in imports")
+		}
+		if !seen {
+			return fmt.Errorf("compile (pass %d) failed without reporting the import cycle: %v (%+v)", pass, err, c)
+		}
+	}
+	r.Case(ev.JSONFP(c), len(c.Entrants) >= 2 && c.Ring >= 50, "gate="+c.Gate, fmt.Sprintf("entrants=%d", len(c.Entrants)))
+	r.LabelN("ring-files", c.Ring)
+	if r.WantSample() {
+		r.Sample(c)
+	}
+	return nil
+}
+
+func TestC06_Rings(t *testing.T) {
+	ev.Run(t, ev.Spec[c06Ring]{ID: "C06", Name: "Rings", Quick: 60, Thorough: 3000,
+		Rule: "an import ring of 3-400 files plus 1-8 further files that each import a different member of the ring; c0 and all of those are requested; their sources are handed out at once, when the compiler opens c0, or (half of the cases) at the moment it closes the source of c0 - so that several files pointing into the same cycle run their cycle checks at overlapping times; parallelism from entrants+1 to 2*entrants+2; default and collect-all reporter; oracle: Compile returns (watchdog 30 s), fails, and reports 'cycle found in imports'; non-trivial = >=2 entrants into a ring of >=50 files",
+		Gen: func(t *rapid.T) c06Ring {
+			c := c06Ring{Ring: gen.Pick(t, []int{3, 10, 50, 120, 300, 400}, "ring"), Gate: gen.Pick(t, []string{"none", "c0-opened", "c0-closed", "c0-closed"}, "gate")}
+			n := 1 + gen.Uniform(t, 8, "entrants")
+			for k := 0; k < n; k++ {
+				if gen.Pct(t, 70, "spread") {
+					c.Entrants = append(c.Entrants, k*c.Ring/n)
+				} else {
+					c.Entrants = append(c.Entrants, gen.Uniform(t, c.Ring, "member"))
+				}
+			}
+			// every entrant holds a permit while its source is held back, so the ring needs one of its own
+			c.Par = gen.Pick(t, []int{n + 1, n + 2, 2 * n, 2*n + 2}, "par")
+			return c
+		},
+		Check: c06RingCheck})
 }
